@@ -98,6 +98,38 @@ let run_case (toks : string list) : string option =
                then recv6 c Z0 (if from = "-" then None else Some (unhex from)) b
                else recv4 c Z0 b) "-" in
     Some (String.concat "|" (List.map one (split_on ',' list)))
+  | ["tcpseq"; cfg; timeout_ms; ops] ->
+    let c = parse_rcfg cfg in
+    let timeout = Z.mul (zi timeout_ms) (z_of_int 1000000) in
+    let now = ref Z0 and l = ref [] and outs = ref [] in
+    List.iter (fun op0 ->
+        (* S / R ops carry the clock reading at which the implementation ran them *)
+        let (op, at) = (match String.split_on_char '@' op0 with [a; t] -> (a, Some (zi t)) | _ -> (op0, None)) in
+        (match at with Some t -> now := t | None -> ());
+        match op.[0] with
+        | 'S' ->
+          (match String.split_on_char '.' (String.sub op 1 (String.length op - 1)) with
+           | [sp; dp; oc] ->
+             let st = if oc = "pending" then SockPending else SockReady (parse_outcome oc) in
+             (match tcp_push !l { te_state = st; te_sp = zi sp; te_dp = zi dp; te_start = !now } with
+              | Ok l' -> l := l'; outs := "sent" :: !outs
+              | Err e -> outs := ("err:" ^ err_tok e) :: !outs
+              | Fault f -> outs := ("fault:" ^ fault_name f) :: !outs)
+           | _ -> outs := "?" :: !outs)
+        | 'T' -> outs := "t" :: !outs
+        | _ ->
+          let (l', res) = recv_tcp_sockets_list c !now timeout !l in
+          l := l';
+          let res = (match res with
+              | Ok None -> recv_probe c !now None NotReadable
+              | r -> r) in
+          (* the harness prints receive times as 0 (they are wall-clock readings) *)
+          let zero_time o = (match String.split_on_char '/' o with
+              | k :: _ :: rest when rest <> [] -> String.concat "/" (k :: "0" :: rest)
+              | _ -> o) in
+          outs := zero_time (observe res "-") :: !outs)
+      (split_on ',' ops);
+    Some (String.concat "|" (List.rev !outs))
   | ["sockerr"; cfg; what] ->
     let c = parse_rcfg cfg in
     let k = z_of_int 13 in
